@@ -465,12 +465,15 @@ def run_case(case, ctx):
         prev_sig = sig
         site = f"{call}:{per}:{step['proj'][0]}:{step['engine'] if 'gdf' in call else '-'}:{hist}"
         kw = dict(periodic_elements=per, projection=proj, cache=step["cache"], override=step["override"])
-        ctx.ev("antimeridian_set")
-        am0, _ = _am_faces(mesh, 0.0)
-        got_am = sorted(int(i) for i in np.atleast_1d(g.antimeridian_face_indices))
-        if got_am != am0:
-            fails.append(Failure("antimeridian_set", "Grid.antimeridian_face_indices", "wrong-set", f"step {si}: {got_am} expected {am0}"))
-            return fails
+        # the public list of antimeridian faces, read for the first time only after the first conversion (in a drawn
+        # half of the cases before it): it must not depend on what was converted before, with which projection
+        if si > 0 or step["var"] == 0:
+            ctx.ev("antimeridian_set")
+            am0, _ = _am_faces(mesh, 0.0)
+            got_am = sorted(int(i) for i in np.atleast_1d(g.antimeridian_face_indices))
+            if got_am != am0:
+                fails.append(Failure("antimeridian_set", "Grid.antimeridian_face_indices", "wrong-set", f"before step {si} (after {[s_['call'] + ':' + s_['proj'][0] for s_ in case['steps'][:si]]}): {got_am} expected {am0}"))
+                return fails
         if call in ("grid_gdf", "da_gdf"):
             if call == "grid_gdf":
                 obj = g.to_geodataframe(engine=step["engine"], **kw)
@@ -524,4 +527,9 @@ def run_case(case, ctx):
             if not same_snapshot(snap0, snapshot(kind, o)):
                 fails.append(Failure("returned_objects_stable", site, "earlier-object-changed", f"step {si}: the {kind} object returned at step {sj} changed after this call"))
                 return fails
+    ctx.ev("antimeridian_set")
+    am0, _ = _am_faces(mesh, 0.0)
+    got_am = sorted(int(i) for i in np.atleast_1d(g.antimeridian_face_indices))
+    if got_am != am0:
+        fails.append(Failure("antimeridian_set", "Grid.antimeridian_face_indices", "wrong-set", f"after the history {[s_['call'] + ':' + s_['proj'][0] for s_ in case['steps']]}: {got_am} expected {am0}"))
     return fails
